@@ -47,7 +47,7 @@ def gen_parts(rng, n):
 
 # ----------------------------------------------------------------------------- oracle quantities (fsum, raw arrays)
 def raw(sim):
-    n = sim.N
+    n = sim.N - sim.N_var          # real particles only (variational particles sit behind them in the array)
     p = sim.particles
     return [(p[i].m, p[i].x, p[i].y, p[i].z, p[i].vx, p[i].vy, p[i].vz) for i in range(n)]
 
@@ -122,6 +122,18 @@ def all_configs():
     cfgs.append(dict(integrator="ias15"))
     cfgs.append(dict(integrator="ias15", adaptive_mode=1))
     cfgs.append(dict(integrator="bs"))
+    # non-default adaptive / hybrid options
+    cfgs.append(dict(integrator="ias15", epsilon=1e-7, min_dt=1e-4))
+    cfgs.append(dict(integrator="ias15", adaptive_mode=0, epsilon=1e-8))
+    cfgs.append(dict(integrator="ias15", adaptive_mode=3))
+    cfgs.append(dict(integrator="ias15", epsilon=0.0))                 # fixed step
+    cfgs.append(dict(integrator="bs", eps_abs=1e-10, eps_rel=1e-10))
+    cfgs.append(dict(integrator="bs", max_dt=0.05, min_dt=1e-6))
+    cfgs.append(dict(integrator="mercurius", L="C4", safe_mode=1, r_crit_hill=5.0))
+    cfgs.append(dict(integrator="trace", peri_mode=0, r_crit_hill=5.0, peri_crit_eta=0.5))
+    cfgs.append(dict(integrator="janus", order=6, scale_ratio=100.0))   # unequal position / velocity scales
+    cfgs.append(dict(integrator="whfast", coordinates="jacobi", kernel="default", corrector=11, corrector2=0, safe_mode=0, keep_unsynchronized=1))
+    cfgs.append(dict(integrator="saba", type="10,6,4", safe_mode=0, keep_unsynchronized=1))
     for g in ("compensated", "jacobi"):
         cfgs.append(dict(integrator="whfast", coordinates="jacobi", kernel="default", corrector=0, corrector2=0, safe_mode=1, gravity=g))
     cfgs.append(dict(integrator="leapfrog", gravity="compensated"))
@@ -158,6 +170,15 @@ def thresholds(cf):
         dE = 1e-3
     else:
         dE = 1e-3
+    if it == "ias15" and ("epsilon" in cf or "min_dt" in cf):
+        # loosened precision parameter / a floor on the step: no longer "machine precision" (1.8e-6 measured with min_dt=1e-4 in a close encounter)
+        dE = 1e-4
+    if it == "ias15" and cf.get("epsilon") == 0.0:
+        # fixed-step IAS15 at dt = P/30 is not converged to machine precision (measured 8e-6 / 2.5e-8 on the clean tree)
+        dE, dL = 1e-4, 1e-6
+    if it == "janus" and cf.get("scale_ratio", 1.0) != 1.0:
+        # coarser velocity grid: rounding to the grid is 1e-13 relative per step (measured 4e-10 / 1e-9)
+        dP, dL, dR = 1e-8, 1e-7, 1e-8
     return dP, dL, dR, dE
 
 
@@ -171,10 +192,14 @@ def apply_cfg(sim, cf):
         w.corrector = cf["corrector"]
         w.corrector2 = cf["corrector2"]
         w.safe_mode = cf["safe_mode"]
+        if cf.get("keep_unsynchronized"):
+            w.keep_unsynchronized = 1
     elif it == "saba":
         sim.ri_whfast.coordinates = "jacobi"      # SABA requires Jacobi coordinates (it raises otherwise)
         sim.ri_saba.type = cf["type"]
         sim.ri_saba.safe_mode = cf["safe_mode"]
+        if cf.get("keep_unsynchronized"):
+            sim.ri_saba.keep_unsynchronized = 1
     elif it == "eos":
         sim.ri_eos.phi0 = cf["phi0"]
         sim.ri_eos.phi1 = cf["phi1"]
@@ -187,12 +212,24 @@ def apply_cfg(sim, cf):
     elif it == "mercurius":
         sim.ri_mercurius.L = cf["L"]
         sim.ri_mercurius.safe_mode = cf["safe_mode"]
-        sim.ri_mercurius.r_crit_hill = 3.0
+        sim.ri_mercurius.r_crit_hill = cf.get("r_crit_hill", 3.0)
     elif it == "trace":
         sim.ri_trace.peri_mode = cf["peri_mode"]     # integer: the ctypes field shadows the string property (F6)
+        if "r_crit_hill" in cf:
+            sim.ri_trace.r_crit_hill = cf["r_crit_hill"]
+        if "peri_crit_eta" in cf:
+            sim.ri_trace.peri_crit_eta = cf["peri_crit_eta"]
     elif it == "ias15":
         if "adaptive_mode" in cf:
             sim.ri_ias15.adaptive_mode = cf["adaptive_mode"]
+        if "epsilon" in cf:
+            sim.ri_ias15.epsilon = cf["epsilon"]
+        if "min_dt" in cf:
+            sim.ri_ias15.min_dt = cf["min_dt"]
+    elif it == "bs":
+        for k_ in ("eps_abs", "eps_rel", "min_dt", "max_dt"):
+            if k_ in cf:
+                setattr(sim.ri_bs, k_, cf[k_])
     if "gravity" in cf:
         sim.gravity = cf["gravity"]
 
@@ -234,7 +271,7 @@ def build_sim(rebound, m0, bodies, G, boost, cf, dt):
     apply_cfg(sim, cf)
     if cf["integrator"] == "janus":     # integer grid: resolution relative to the system's units
         sim.ri_janus.scale_pos = 1e-15 * bodies[0][1]
-        sim.ri_janus.scale_vel = 1e-15 * vsc
+        sim.ri_janus.scale_vel = 1e-15 * vsc * cf.get("scale_ratio", 1.0)
     sim.dt = dt
     return sim
 
@@ -477,11 +514,48 @@ def run(c):
         cfgs = sel
     nsteps = 1500 if c.thorough else 300
     ran = 0
+    import pickle, tempfile
+    n_unsafe, n_nondefault = [0], [0]
+    VARIANTS = ["plain", "dt<0", "massless test particles", "callbacks installed (read-only)", "restore mid-run (file)", "restore mid-run (copy)",
+                "restore mid-run (pickle)", "variational particles present", "direction reversal between calls", "integrate() with exact_finish_time=1",
+                "rejected steps (too large initial dt)"]
+    dims = {v: 0 for v in VARIANTS[1:]}
+    cb_calls = [0]
+
+    def variant_ok(v, cf):
+        it = cf["integrator"]
+        if v in ("dt<0", "direction reversal between calls"):
+            if v.startswith("direction") and cf.get("keep_unsynchronized"):
+                return False                          # changing dt while deliberately unsynchronised is outside the documented use
+            return it != "trace"                      # TRACE with dt<0 is finding F10 (C01/C08)
+        if v == "variational particles present":
+            return it in ("ias15", "leapfrog") or (it == "whfast" and cf["coordinates"] == "jacobi" and cf["kernel"] == "default" and cf.get("gravity") is None)
+        if v == "rejected steps (too large initial dt)":
+            return it in ("ias15", "bs") and cf.get("epsilon") != 0.0
+        if v.startswith("restore"):
+            return it != "janus" or v != "restore mid-run (pickle)"
+        return True
+
     for ci, cf in enumerate(cfgs):
         # family 3 (a close planet pair) is inside the stable regime only for the schemes that resolve close encounters
         enc_ok = cf["integrator"] in ("mercurius", "trace", "ias15", "bs")
+        if cf.get("epsilon") == 0.0:
+            enc_ok = False          # fixed-step IAS15 does not resolve close encounters
         fams = ([0, 1, 2] + ([3] if enc_ok else [])) if c.thorough else [ci % 2, 3 if enc_ok else 2]
-        for fam in fams:
+        runs_ = []
+        for fi, fam in enumerate(fams):
+            variant = VARIANTS[(ci * 3 + fi * 5 + (c.seed if c.thorough else 0)) % len(VARIANTS)]
+            if cf["integrator"] in ("ias15", "bs", "mercurius", "trace", "leapfrog", "janus"):
+                variant = VARIANTS[(ci + fi * 4) % len(VARIANTS)]       # few configurations: spread the variants over them
+            runs_.append((fam, variant))
+        # the rarer dimensions get dedicated runs on every configuration that supports them
+        if variant_ok("variational particles present", cf) and (c.thorough or cf.get("corrector", 0) in (0, 11)):
+            runs_.append((ci % 2, "variational particles present"))
+        if variant_ok("rejected steps (too large initial dt)", cf):
+            runs_.append((3 if ci % 2 else 0, "rejected steps (too large initial dt)"))
+        for fam, variant in runs_:
+            if not variant_ok(variant, cf):
+                variant = "plain"
             rng = c.rng.fork()
             m0, bodies, G = gen_system(rng, fam)
             boost = [rng.normal() for _ in range(3)] + [0.3 * rng.normal() for _ in range(3)]
@@ -495,6 +569,30 @@ def run(c):
                 except Exception as ex:
                     res = None
                     break
+                # ---- cross-cutting dimension applied to this run
+                if variant == "dt<0":
+                    sim.dt = -sim.dt
+                elif variant == "massless test particles":
+                    nm_ = sim.N
+                    sim.add(m=0.0, a=bodies[-1][1] * 1.7, e=0.02, primary=sim.particles[0])
+                    sim.add(m=0.0, a=bodies[0][1] * 0.55, e=0.01, f=1.0, primary=sim.particles[0])
+                    sim.N_active = nm_
+                elif variant == "callbacks installed (read-only)":
+                    def _ro(simp, _c=cb_calls):
+                        _c[0] += 1
+                        _ = simp.contents.particles[0].x
+                    sim.post_timestep_modifications = _ro
+                    sim.pre_timestep_modifications = _ro
+                    sim.heartbeat = _ro
+                    sim.additional_forces = _ro
+                elif variant == "variational particles present":
+                    var_ = sim.add_variation()
+                    for i_ in range(sim.N - sim.N_var, sim.N):
+                        pv = sim.particles[i_]
+                        pv.x, pv.y, pv.z = 1e-3 * rng.normal(), 1e-3 * rng.normal(), 1e-3 * rng.normal()
+                        pv.vx, pv.vy, pv.vz = 1e-3 * rng.normal(), 1e-3 * rng.normal(), 1e-3 * rng.normal()
+                elif variant == "rejected steps (too large initial dt)":
+                    sim.dt = 40 * dt
                 ps0 = raw(sim)
                 i0 = invariants(ps0, G)
                 t0 = sim.t
@@ -505,7 +603,30 @@ def run(c):
                 try:
                     for ch in range(nchunks):
                         k = total // nchunks + (rng.randint(0, 3) if ch < nchunks - 1 else 0)
-                        if ch == 2 and cf["integrator"] in FIXED_SYMPLECTIC:
+                        if ch == 3 and variant.startswith("restore"):
+                            sim.synchronize()
+                            if variant.endswith("(copy)"):
+                                sim = sim.copy()
+                            elif variant.endswith("(pickle)"):
+                                sim = pickle.loads(pickle.dumps(sim))
+                            else:
+                                fn_ = os.path.join(tempfile.gettempdir(), "c04_%d.bin" % os.getpid())
+                                sim.save_to_file(fn_, delete_file=True)
+                                sim = rebound.Simulation(fn_)
+                                os.remove(fn_)
+                        if ch == 3 and variant == "direction reversal between calls":
+                            sim.synchronize()
+                            sim.dt = -sim.dt
+                        if variant == "integrate() with exact_finish_time=1":
+                            try:
+                                sim.integrate(sim.t + k * sim.dt)
+                            except RuntimeError as ex_:
+                                # C08's finding F19 (absorbed residual step, now reported as an error instead of a hang): t is
+                                # within one ulp of the target and t + dt/2 == t; the state is valid, carry on
+                                if "not making progress" not in str(ex_):
+                                    raise
+                                c.cov["exact_finish_absorbed_residual_step"] = c.cov.get("exact_finish_absorbed_residual_step", 0) + 1
+                        elif ch == 2 and cf["integrator"] in FIXED_SYMPLECTIC:
                             # split integrate() calls (no exact finish time: steps stay unsynchronised across the calls)
                             sim.integrate(sim.t + (k // 2) * sim.dt * (1 + 1e-9), exact_finish_time=0)
                             sim.integrate(sim.t + (k - k // 2) * sim.dt * (1 + 1e-9), exact_finish_time=0)
@@ -539,17 +660,25 @@ def run(c):
                 res.append((worstP, worstL, worstR, worstE))
             if not res:
                 continue
+            if variant != "plain":
+                dims[variant] += 1
             ran += 1
-            c.count((cfg_key(cf), fam))
+            if cf.get("safe_mode") == 0:
+                n_unsafe[0] += 1
+            if any(k_ in cf for k_ in ("epsilon", "min_dt", "adaptive_mode", "eps_abs", "max_dt", "r_crit_hill", "peri_crit_eta", "keep_unsynchronized", "scale_ratio")):
+                n_nondefault[0] += 1
+            c.count((cfg_key(cf), fam, variant))
             hist[cf["integrator"]] = hist.get(cf["integrator"], 0) + 1
             dP, dL, dR, dE = thresholds(cf)
+            if cf["integrator"] == "bs" and fam == 3:
+                dE = 1e-5        # close planet pair: BS's tolerance is relative to the whole state (2.5e-6 measured on the clean tree)
             (P1, L1, R1, E1), (P2, L2, R2, E2) = res
             it = cf["integrator"]
             for nm, v in (("dP", max(P1, P2)), ("dL", max(L1, L2)), ("dCOM", max(R1, R2)), ("dE", max(E1, E2))):
                 kk = it + (":" + cf["coordinates"] if it == "whfast" else "") + ":" + nm
                 worst[kk] = max(worst.get(kk, 0.0), v)
-            rep = dict(cfg=cf, family=fam, m0=m0, bodies=bodies, G=G, boost=boost, dt=dt0, steps=nsteps, dP=[P1, P2], dL=[L1, L2], dCOM=[R1, R2], dE=[E1, E2])
-            tag = cfg_key(cf)
+            rep = dict(cfg=cf, family=fam, variant=variant, m0=m0, bodies=bodies, G=G, boost=boost, dt=dt0, steps=nsteps, dP=[P1, P2], dL=[L1, L2], dCOM=[R1, R2], dE=[E1, E2])
+            tag = cfg_key(cf) + ("" if variant == "plain" else " [" + variant + "]")
             if not (P1 <= dP and P2 <= dP):
                 viol.append(("P:" + tag, "total momentum not conserved by %s: dP/P = %.3g (dt), %.3g (dt/2), bound %.1g" % (tag, P1, P2, dP), rep))
             if not (R1 <= dR and R2 <= dR) and it == "trace" and res_sig[0] is not None:
@@ -568,6 +697,7 @@ def run(c):
             if not (E1 <= dE and E2 <= dE):
                 viol.append(("E:" + tag, "relative energy error of %s outside its class: %.3g (dt), %.3g (dt/2), bound %.1g" % (tag, E1, E2, dE), rep))
     c.cov["integrator_runs"] = ran
+    dims["callbacks actually called"] = cb_calls[0]
 
     # ======================================================================= search: integrator switches on ONE simulation
     # every ordered pair of integrators, a few steps each, with and without reset_integrator(); invariants measured from the
@@ -722,7 +852,8 @@ def run(c):
                     if dR > 1e-12:
                         viol.append((key + ":COM", "WHFast %s step in %s coordinates moves the centre of mass by %.3g (expected %s)" % (nm_, coords, dR, "tau*V" if nm_ == "com" else "0"), rep))
                     if dL > 1e-12:
-                        k_ = "F13:whfast-barycentric-L" if (coords == "barycentric" and dL <= 1e-6) else key + ":L"
+                        # per primitive the barycentric loss is O(mu*dt) (1.8e-6 measured); the two primitives cancel to O(dt^2) over a step
+                        k_ = "F13:whfast-barycentric-L" if (coords == "barycentric" and dL <= 1e-4) else key + ":L"
                         viol.append((k_, "WHFast %s step in %s coordinates changes the total angular momentum by %.3g" % (nm_, coords, dL), rep))
                     prev = iv
             c.count(("prim", coords, fam, case))
@@ -896,6 +1027,17 @@ def run(c):
         elif dRm > 1e-9:
             viol.append(("merge-run:COM:" + it, "centre of mass jumps by %.3g across a merging collision (%s)" % (dRm, it), rep))
     c.cov["merge_runs_with_a_merge"] = nm
+    dims["histories: integrator switched on one simulation"] = sw_runs
+    dims["histories: pericentre switches (TRACE, all peri modes)"] = sum(peri_hits.values())
+    dims["histories: close encounters (hybrid / adaptive schemes)"] = sum(v for k, v in hist.items() if k in ("mercurius", "trace"))
+    dims["histories: merging collisions"] = nm
+    dims["options: safe_mode=0"] = n_unsafe[0]
+    dims["options: non-default adaptive options"] = n_nondefault[0]
+    dims["geometry: moving centre of mass away from the origin"] = ran
+    c.cov["dimensions"] = dict(sorted(dims.items()))
+    for nm_, cnt_ in sorted(dims.items()):
+        if cnt_ == 0:
+            c.broken.append("coverage: dimension '%s' not covered" % nm_)
     c.cov["histogram"] = hist
     c.cov["worst_measured"] = {k: float("%.3g" % v) for k, v in sorted(worst.items())}
     seen = set()
